@@ -22,6 +22,10 @@ pub fn opts() -> GenOpts {
     o.decor = false;
     o.cmd_depth = 1;
     o.max_named = 6;
+    // "absent" also means: the declared environment variable is unset
+    o.env = true;
+    // (an adjacent group must start with a named item, so no environment-only items here)
+    o.env_only = false;
     o
 }
 
@@ -116,6 +120,7 @@ fn corruptions(spec: &OptSpec, item: &Item, tok: u32) -> Vec<Corruption> {
 #[derive(PartialEq, Eq, Clone, Copy)]
 enum Nesting {
     Plain,
+    InGroup,
     InAlternative,
     InAdjacent,
     UnderCatch,
@@ -127,6 +132,17 @@ fn nesting(spec: &OptSpec, id: Id) -> Nesting {
         None => return Nesting::Plain,
     };
     let mut n = Nesting::Plain;
+    // a member of a group (a sequence below the level's own sequence) is only decisive when
+    // the rest of the group is there as well
+    let seqs = path.iter().filter(|e| matches!(e, PathEl::Seq)).count();
+    let last_cmd = path.iter().rposition(|e| matches!(e, PathEl::Cmd(_)));
+    let seqs_in_level = match last_cmd {
+        Some(c) => path[c..].iter().filter(|e| matches!(e, PathEl::Seq)).count(),
+        None => seqs,
+    };
+    if seqs_in_level >= 2 {
+        n = Nesting::InGroup;
+    }
     for el in &path {
         match el {
             PathEl::Alt(_) => {
@@ -135,7 +151,7 @@ fn nesting(spec: &OptSpec, id: Id) -> Nesting {
                 }
             }
             PathEl::Adj => {
-                if n == Nesting::Plain {
+                if n == Nesting::Plain || n == Nesting::InGroup {
                     n = Nesting::InAdjacent;
                 }
             }
@@ -189,6 +205,74 @@ pub fn run_case(case: &mut Case) {
                     .set("denotes", d.value.show()),
             );
         }
+        // a present-but-invalid value may also sit in the declared environment variable of an
+        // item that is absent from the line: defaults must not mask it either
+        {
+            let on_line: Vec<Id> = units
+                .iter()
+                .filter_map(|u| match &u.kind {
+                    UKind::Arg { item, .. } | UKind::Flag { item, .. } => Some(*item),
+                    _ => None,
+                })
+                .collect();
+            let mut root_items = Vec::new();
+            b.spec.root.level_items(&mut root_items);
+            for it in root_items {
+                let var = match it.names.envs.first() {
+                    Some(v) if it.is_arg() && !on_line.contains(&it.id) => v.clone(),
+                    _ => continue,
+                };
+                let ty = it.ty().unwrap_or(Ty::Str);
+                let (bad, msg): (Vec<u8>, String) = if ty.is_num() {
+                    (b"12x".to_vec(), conv_error(ty, b"12x").unwrap_or_default())
+                } else if ty == Ty::Str {
+                    (b"v\xff".to_vec(), "is not a valid utf8".to_string())
+                } else {
+                    continue;
+                };
+                let nest = nesting(&b.spec, it.id);
+                // inside a choice the line may have picked a sibling alternative, in which case
+                // this item's variable is legitimately never the deciding one
+                // ... and a member of an adjacent group is only evaluated when the group's first
+                // item is on the line
+                if nest != Nesting::Plain {
+                    continue;
+                }
+                use std::os::unix::ffi::OsStringExt;
+                std::env::set_var(&var, std::ffi::OsString::from_vec(bad.clone()));
+                let class = "invalid:environment-variable";
+                let (out, _) = b.run(case, &line.argv, class);
+                std::env::remove_var(&var);
+                let expected = format!(
+                    "Stderr mentioning {:?} ({}={:?}, item {} absent from the line)",
+                    msg,
+                    var,
+                    show_bytes(&bad),
+                    it.id
+                );
+                match &out {
+                    Outcome::Stderr { text } => {
+                        if text.contains(&msg) {
+                            case.rep.count("message-present");
+                        } else if nest != Nesting::InAlternative {
+                            case.rep.violation(
+                                "message-lost:environment-variable",
+                                "message",
+                                case.index,
+                                b.detail(&line.argv, class, &expected, &out),
+                            );
+                        }
+                    }
+                    Outcome::Panic(_) | Outcome::FuelExhausted => {}
+                    other => case.rep.violation(
+                        &format!("invalid-value-masked:environment-variable:{}", other.class()),
+                        "masking",
+                        case.index,
+                        b.detail(&line.argv, class, &expected, &out),
+                    ),
+                }
+            }
+        }
         // corrupt typed occurrences one at a time
         for (ui, u) in units.iter().enumerate() {
             let (id, after_dd) = match &u.kind {
@@ -234,6 +318,7 @@ pub fn run_case(case: &mut Case) {
                     c.kind,
                     match nest {
                         Nesting::Plain => "plain",
+                        Nesting::InGroup => "in-group",
                         Nesting::InAlternative => "in-alternative",
                         Nesting::InAdjacent => "in-adjacent",
                         Nesting::UnderCatch => "under-catch",
